@@ -121,6 +121,53 @@ def option_sets(m, mode: str, stream: str, rng, wide: bool):
     return sets
 
 
+def shape_live(q: dict, m, rng, now: str) -> None:
+    """the manifest-shaping options that are legal for any live session, sampled independently of the
+    option set under test: buffer depth, the start of the stream, and whether (and how often) the manifest
+    announces updates – `mup=-1` serves a dynamic MPD *without* MPD@minimumUpdatePeriod"""
+    q["depth"] = rng.choice(["30", "30", "40", "60"])
+    r = rng.random()
+    if r < .3:
+        q["start"] = rng.choice(["epoch", "today", "year"])
+    elif r < .4:
+        t0 = datetime.datetime.fromisoformat(now.replace("Z", "+00:00")).replace(microsecond=0)
+        q["start"] = (t0 - datetime.timedelta(seconds=rng.choice([3600, 86400 + 17, 400000]))).strftime(
+            "%Y-%m-%dT%H:%M:%SZ")
+    if "minimumUpdatePeriod" in m.features and "mup" not in q and "patch" not in q:
+        r = rng.random()
+        if r < .25:
+            q["mup"] = "-1"
+        elif r < .4:
+            q["mup"] = rng.choice(["4", "6"])
+
+
+def refresh_family(ctx, rng) -> list:
+    """live sessions that are certain to reload the manifest, for every way the manifest can be shaped
+    with respect to updates: template x ($Number$ | $Time$ timeline) x (default period | explicit period |
+    no MPD@minimumUpdatePeriod at all).  They carry the cross-refresh corruptions of the catalogue."""
+    import c18_run
+    out = []
+    quick_templates = {"hand_made.mpd", "manifest_e.mpd", "manifest_a.mpd"}
+    for name, m, modes in templates():
+        if "live" not in modes or (not ctx.thorough and name not in quick_templates):
+            continue
+        tls = [{}] + ([{"timeline": "1"}] if "segmentTimeline" in m.features and not m.segment_timeline else [])
+        mups = [None]
+        if "minimumUpdatePeriod" in m.features:
+            mups += ["-1", rng.choice(["4", "6"])] if ctx.thorough else ["-1"]
+        for tl in tls:
+            for mup in mups:
+                q = dict(tl)
+                q["depth"] = "30"
+                if mup is not None:
+                    q["mup"] = mup
+                if rng.random() < .4:
+                    q["start"] = rng.choice(["epoch", "today", "year"])
+                out.append(c18_run.Case("bbb", name, "live", q, rng.choice([38, 42]),
+                                        rng.choice(NOW_POOL if ctx.thorough else NOW_POOL[:2])))
+    return out
+
+
 def gen_pristine(ctx, rng):
     import c18_run
     cases = []
@@ -138,15 +185,14 @@ def gen_pristine(ctx, rng):
                         continue
                     now = rng.choice(NOW_POOL if ctx.thorough else NOW_POOL[:2])
                     if mode == "live":
-                        q["depth"] = rng.choice(["30", "30", "40", "60"])
-                        if rng.random() < .3:
-                            q["start"] = rng.choice(["epoch", "today", "year"])
+                        shape_live(q, m, rng, now)
                         # about half of the live sessions need at least one manifest refresh
                         dur = rng.choice([12, 20, int(q["depth"]) + 8, int(q["depth"]) + 16])
                     else:
                         dur = rng.choice([8, 12, 16, 24])
                         dur = min(dur, STREAMS[stream]["vod_max"])
                     cases.append(c18_run.Case(stream, name, mode, q, dur, now))
+    cases += refresh_family(ctx, rng)
     # tears in quick: two cases
     if not ctx.thorough:
         from dashlive.server.manifests import manifest_map
@@ -265,9 +311,15 @@ def gen_corruptions(ctx, rng, base, res, per_base: int):
                 cands.append({"kind": "timeline", "nth": 0, "which": which, "op": "dur",
                               "index": rng.randrange(1, m_ - 2), "amount": rng.choice([ts // 4, -(ts // 4), ts // 2])})
     n_manifests = sum(1 for ex in res.exchanges if ex.cls == "manifest")
+    cross = []
     if base.mode == "live" and n_manifests >= 2:
-        cands.append({"kind": "ast", "nth": rng.randrange(1, n_manifests),
-                      "seconds": rng.choice([1, -1, 3600, -86400, 2])})
+        # the cross-refresh part of the catalogue is applied to *every* session that reloads its manifest,
+        # whatever shaped that manifest (update period present or not, timeline or template, start, depth)
+        cross.append({"kind": "ast", "nth": rng.randrange(1, n_manifests),
+                      "seconds": rng.choice([1, -1, 2, 3, -2])})
+        cross.append({"kind": "ast", "nth": rng.randrange(1, n_manifests),
+                      "seconds": rng.choice([3600, -86400, 60])})
+        cross.append({"kind": "mpdid", "nth": rng.randrange(1, n_manifests), "suffix": "-x", "probe": True})
     rng.shuffle(cands)
     # one of every kind first, then the rest
     seen, ordered = set(), []
@@ -276,7 +328,7 @@ def gen_corruptions(ctx, rng, base, res, per_base: int):
             seen.add(c["kind"])
             ordered.append(c)
     ordered += [c for c in cands if c not in ordered]
-    for c in ordered[:per_base]:
+    for c in cross + ordered[:per_base]:
         out.append(c18_run.Case(base.stream, base.template, base.mode, dict(base.query), base.duration,
                                 base.now, corruption=c))
     return out
@@ -696,6 +748,9 @@ def correspond(case, res, chs, batch: Batch):
         real = [k for k in M.classify_refresh_errors(rc["top_errors"])]
         batch.add(chs["vrefresh"], f"vrefresh {cfg}", ",".join(real) or "-", {**info, "refresh": i})
         chs["vrefresh"].count("errors" if real else "clean")
+        chs["vrefresh"].count("minimumUpdatePeriod:" + ("absent" if rc["mup_us"] is None else "present"))
+        for k in real:
+            chs["vrefresh"].count(f"kind:{k}:mup-" + ("absent" if rc["mup_us"] is None else "present"))
         chs["vrefresh"].nontrivial.add((cfg, case.key()))
         model_err["n"] += sum(1 for k in real if not k.startswith("other:"))
     # ---- verdict level: errors / no errors.  The sub-channels compare every modelled error; what is left
@@ -758,6 +813,8 @@ def run_sessions(app, cases, chs, batch, limit_s=None):
             continue
         run.count(f"{case.mode}:{label}")
         run.count(f"template:{case.template}")
+        if case.mode == "live":
+            run.count(f"live-mup:{case.query.get('mup', 'default')}")
         run.count("verdict:" + ("crash" if res.crashed else "errors" if res.errors else "clean"))
         if any(ex.cls == "media" for ex in res.exchanges):
             run.nontrivial.add(case.key())
@@ -801,6 +858,9 @@ def channels(ctx):
     kinds_first, rest, seen = [], [], {}
     for c in corrupted:
         k = (c.corruption["kind"], c.mode)
+        if c.corruption["kind"] in ("ast", "mpdid"):
+            # every cross-refresh corruption on every shape of manifest update announcement
+            k += (c.query.get("mup", "default"), bool(c.query.get("timeline")), c.template)
         if seen.get(k, 0) < (4 if not ctx.thorough else 10 ** 6):
             seen[k] = seen.get(k, 0) + 1
             kinds_first.append(c)
